@@ -31,7 +31,7 @@ func checkC16(c *an.Ctx) {
 	c.Rule("C16.1", "registry (E9): unmarshalData dispatches, case-insensitively, .yaml/.yml → yaml.v2, .json → encoding/json, .toml → go-toml; each case only decodes the whole input into the one map that is returned unmodified; any other extension is an error; readURL/readFile derive the extension from content type / path only")
 	c.Rule("C16.2", "one decode path (E4): mapstructure.NewDecoder has one caller with one configuration; every configDefinition is produced by it; Load and LoadGlobalConfig both go load → decode → buildFromDefinition")
 	c.Rule("C16.4", "closed schema (E9 over types): no field reachable from configDefinition has an interface type — every leaf is a string, bool, duration or a list/map of those, so mapstructure's weak conversion erases the decoders' dynamic types (YAML int, TOML int64, JSON float64; yaml.v2's map[interface{}]interface{}) before the configuration is built")
-	c.Rule("C16.3", "format-blindness (E4): outside unmarshalData/readURL/readFile nothing in internal/config looks at a file extension, a content type, or at decoder-specific dynamic types")
+	c.Rule("C16.3", "format-blindness (E4): outside unmarshalData/readURL/readFile nothing in internal/config looks at a file extension, a content type, or at decoder-specific dynamic types; a decode hook of the module asks at most whether its source is a string (the numeric kinds differ between the decoders)")
 	c.NotDecided = append(c.NotDecided, "that the three libraries produce maps mapstructure decodes identically (key types, numeric types, YAML 1.1 booleans, durations) — the property proper", "directory imports match *.yaml only (observation)")
 	p := c.P
 	um := p.Func("internal/config", "Loader", "unmarshalData")
@@ -515,6 +515,7 @@ func checkC16(c *an.Ctx) {
 	}
 
 	// C16.4: the definition schema is closed under decoder-independent types
+	hookKindBlind(c, "C16.3")
 	closedSchema(c, "C16.4")
 
 	// C16.3
